@@ -80,6 +80,10 @@ fn main() {
             }
         }
         std::env::remove_var("H8VERIF_QUIET_REPLAY");
+        if failed == 0 && std::env::var("H8VERIF_REGRESS_ONLY").is_ok() {
+            println!("{} regress: {} saved regression inputs pass", id, n);
+            std::process::exit(0);
+        }
         if failed > 0 {
             println!("{} {}: {} of {} saved regression inputs fail", id, tier.name(), failed, n);
             std::process::exit(1);
